@@ -39,7 +39,7 @@ def run_flat(rep, tier, seed, selftest, cfg):
     for mc in mc_cfgs:
         r1 = common.tlc(cfg["module"], mc, workers=cfg.get("workers", 8),
                         timeout=cfg.get("timeout", {"quick": 900, "thorough": 3400})[tier],
-                        heap=cfg.get("heap", "12g"), tag="%s-mc-%s" % (prop, mc.replace(".cfg", "")))
+                        heap=cfg.get("heap", "12g"), tag="%s-mc-%s-%d" % (prop, mc.replace(".cfg", ""), os.getpid()))
         log("[tlc] %s/%s: %d states generated, %d distinct, %d cases, %.1fs, %s" %
             (cfg["module"], mc, r1.generated, r1.distinct, len(r1.cases), r1.wall,
              "no invariant violated" if r1.ok else "INVARIANT %s VIOLATED" % r1.violated))
@@ -64,8 +64,8 @@ def run_flat(rep, tier, seed, selftest, cfg):
     if not cases:
         raise common.ToolError("TLC emitted no cases")
     # ---- 2. replay every case on the real compiler ------------------------------
-    cases_path = os.path.join(common.WORK, "%s-cases.ndjson" % prop)
-    obs_path = os.path.join(common.WORK, "%s-obs.ndjson" % prop)
+    cases_path = os.path.join(common.WORK, "%s-cases-%d.ndjson" % (prop, os.getpid()))
+    obs_path = os.path.join(common.WORK, "%s-obs-%d.ndjson" % (prop, os.getpid()))
     common.write_ndjson(cases_path, cases)
     common.pvh(["replay-flat", cases_path, obs_path])
     observations = common.read_ndjson(obs_path)
@@ -99,12 +99,12 @@ def run_flat(rep, tier, seed, selftest, cfg):
         selftests["flipped_verdict_detected"] = bool(cfg["compare"](flipped, observations[len(cases) // 2]))
     if selftest and "vacuity" in cfg:
         vm, vc, vinv = cfg["vacuity"]
-        rv = common.tlc(vm, vc, workers=4, timeout=600, tag="%s-vacuity" % prop)
+        rv = common.tlc(vm, vc, workers=4, timeout=600, tag="%s-vacuity-%d" % (prop, os.getpid()))
         selftests["defective_model_violates_" + vinv] = (rv.violated == vinv)
     # ---- 3. trace validation of random larger bodies ----------------------------
     count = cfg["record_count"][tier]
     chunks = max(1, min(12, count // 150))
-    prefix = os.path.join(common.WORK, "%s-trace" % prop)
+    prefix = os.path.join(common.WORK, "%s-trace-%d" % (prop, os.getpid()))
     common.pvh(["record-flat", cfg["record_prop"], count, seed, prefix, chunks])
     files = [f for f in ("%s.%d.ndjson" % (prefix, c) for c in range(chunks)) if os.path.exists(f)]
     traces_ok = 0
